@@ -80,6 +80,56 @@ impl MetricItem {
     }
 }
 
+/// Verification hook (only with `--cfg sentinel_verif`): plain-data view of a `MetricItem`,
+/// whose fields are crate-private.
+#[cfg(sentinel_verif)]
+#[derive(Debug, Clone, PartialEq, Default)]
+pub struct VerifMetricFields {
+    pub resource: String,
+    pub resource_type: u8,
+    pub timestamp: u64,
+    pub pass_qps: u64,
+    pub block_qps: u64,
+    pub complete_qps: u64,
+    pub error_qps: u64,
+    pub avg_rt: u64,
+    pub occupied_pass_qps: u64,
+    pub concurrency: u32,
+}
+
+#[cfg(sentinel_verif)]
+impl MetricItem {
+    pub fn verif_new(f: &VerifMetricFields) -> Self {
+        MetricItem {
+            resource: f.resource.clone(),
+            resource_type: f.resource_type.into(),
+            timestamp: f.timestamp,
+            pass_qps: f.pass_qps,
+            block_qps: f.block_qps,
+            complete_qps: f.complete_qps,
+            error_qps: f.error_qps,
+            avg_rt: f.avg_rt,
+            occupied_pass_qps: f.occupied_pass_qps,
+            concurrency: f.concurrency,
+        }
+    }
+
+    pub fn verif_fields(&self) -> VerifMetricFields {
+        VerifMetricFields {
+            resource: self.resource.clone(),
+            resource_type: self.resource_type as u8,
+            timestamp: self.timestamp,
+            pass_qps: self.pass_qps,
+            block_qps: self.block_qps,
+            complete_qps: self.complete_qps,
+            error_qps: self.error_qps,
+            avg_rt: self.avg_rt,
+            occupied_pass_qps: self.occupied_pass_qps,
+            concurrency: self.concurrency,
+        }
+    }
+}
+
 pub trait MetricItemRetriever: Send + Sync {
     fn metrics_on_condition(&self, predicate: &TimePredicate) -> Vec<MetricItem>;
 }
